@@ -85,13 +85,23 @@ type c08Hist struct {
 }
 
 type c08Op struct {
-	K       string    `json:"k"`
-	Mode    string    `json:"mode"`
-	Sub     bool      `json:"sub"`
-	Obs     c08Obs    `json:"obs"`
-	Hist    []c08Hist `json:"hist"`
-	Workers int       `json:"workers"`
-	Reps    int       `json:"reps"`
+	K       string     `json:"k"`
+	Mode    string     `json:"mode"` // seq | conc | same
+	Sub     bool       `json:"sub"`
+	Obs     c08Obs     `json:"obs"`
+	Hist    []c08Hist  `json:"hist"`
+	Workers int        `json:"workers"`
+	Reps    int        `json:"reps"`
+	Self    []c08Self  `json:"self"`  // mode same: operations made through the OBSERVED core / logger itself
+	Child   []encField `json:"child"` // mode same: the fields of the With-children derived before and after them
+}
+
+// c08Self is one operation through the observed core (enc) or logger (log) itself.
+type c08Self struct {
+	S      string     `json:"s"` // nofields | fields | obs | panicobj | checkdrop | sync | child | gc
+	Fields []encField `json:"fields"`
+	Calls  []encCall  `json:"calls"`
+	Log    bool       `json:"log"` // child: also log through it
 }
 
 // ---- sinks, hooks, clock ---------------------------------------------------------------------------------------
@@ -430,6 +440,8 @@ type c08Observer struct {
 	hk      *c08Hook
 	core    zapcore.Core // prebuilt
 	lg      *zap.Logger  // prebuilt
+	onCore  zapcore.Core // mode same: the core / logger the next observation goes through
+	onLg    *zap.Logger
 	seq     bool
 }
 
@@ -489,6 +501,9 @@ func (o *c08Observer) run() *c08Observation {
 				}
 			}()
 			core := o.core
+			if o.onCore != nil {
+				core = o.onCore
+			}
 			if core == nil {
 				core = c08EncCore(op, o.sink)
 			}
@@ -496,6 +511,9 @@ func (o *c08Observer) run() *c08Observation {
 		}()
 	case "log":
 		lg := o.lg
+		if o.onLg != nil {
+			lg = o.onLg
+		}
 		if lg == nil {
 			lg = c08BuildLogger(o.obs.Lg, o.sink, o.errOut, o.hook())
 		}
@@ -510,6 +528,83 @@ func (o *c08Observer) run() *c08Observation {
 		res.FHooks = atomic.LoadInt64(&o.w.hookCalls) - h0
 	}
 	return res
+}
+
+// ---- history through the observed core / logger itself (mode same) ------------------------------------------------
+
+// c08Target is the observed core (enc) or logger (log), built exactly as a fresh one is built for the baseline.
+type c08Target struct {
+	core zapcore.Core
+	lg   *zap.Logger
+}
+
+func (o *c08Observer) newTarget() c08Target {
+	if o.obs.T == "enc" {
+		return c08Target{core: c08EncCore(o.obs.Op, o.sink)}
+	}
+	return c08Target{lg: c08BuildLogger(o.obs.Lg, o.sink, o.errOut, o.hook())}
+}
+
+func (t c08Target) child(fs []encField) c08Target {
+	if t.core != nil {
+		return c08Target{core: t.core.With(buildFields(fs))}
+	}
+	return c08Target{lg: t.lg.With(buildFields(fs)...)}
+}
+
+// selfOp runs one operation through the target itself; panics leaving the call are part of the history.
+func (o *c08Observer) selfOp(t c08Target, s *c08Self) {
+	defer func() { _ = recover() }()
+	ent := zapcore.Entry{Level: zapcore.InfoLevel, Time: c08Clock{}.Now(), Message: "earlier entry on the same logger"}
+	if o.obs.T == "enc" {
+		ent = buildEntry(o.obs.Op.Ent)
+	}
+	panicFields := func() []zapcore.Field {
+		return []zapcore.Field{zap.Namespace("open"), zap.Reflect("r", map[string]int{"a": 1}), zap.Object("o", c08PanicObj{s.Calls})}
+	}
+	switch s.S {
+	case "gc":
+		runtime.GC()
+		runtime.GC()
+		return
+	case "child":
+		c := t.child(s.Fields)
+		if s.Log {
+			o.selfOp(c, &c08Self{S: "nofields"})
+		}
+		return
+	}
+	if t.core != nil {
+		switch s.S {
+		case "nofields":
+			_ = t.core.Write(ent, nil)
+		case "fields":
+			_ = t.core.Write(ent, buildFields(s.Fields))
+		case "obs":
+			_ = t.core.Write(ent, buildFields(o.obs.Op.Fields))
+		case "panicobj":
+			_ = t.core.Write(ent, panicFields())
+		case "checkdrop":
+			_ = t.core.Check(ent, nil)
+		case "sync":
+			_ = t.core.Sync()
+		}
+		return
+	}
+	switch s.S {
+	case "nofields":
+		t.lg.Info(ent.Message)
+	case "fields":
+		t.lg.Info(ent.Message, buildFields(s.Fields)...)
+	case "obs":
+		_ = c08DoAct(t.lg, o.obs.Lg, o.obs.Act, o.hook())
+	case "panicobj":
+		t.lg.Info(ent.Message, panicFields()...)
+	case "checkdrop":
+		_ = t.lg.Check(zapcore.WarnLevel, ent.Message)
+	case "sync":
+		_ = t.lg.Sync()
+	}
 }
 
 // ---- exec ------------------------------------------------------------------------------------------------------------
@@ -533,6 +628,7 @@ func c08Marker(obs *c08Obs) []byte {
 }
 
 type c08Outcome struct {
+	want    *c08Observation // what out.bad is compared with when that is not base
 	base    *c08Observation
 	bad     *c08Observation
 	phase   string
@@ -542,6 +638,7 @@ type c08Outcome struct {
 
 func c08RunCase(op *c08Op) (out c08Outcome) {
 	seq := op.Mode != "conc"
+	same := op.Mode == "same" && op.K != "first"
 	runtime.LockOSThread()
 	defer runtime.UnlockOSThread()
 	if seq {
@@ -559,6 +656,13 @@ func c08RunCase(op *c08Op) (out c08Outcome) {
 	if first {
 		phases = 1
 	}
+	if same {
+		// 0: a fresh core/logger (B0)   1: a With-child of a fresh one (Bc)   2: the SAME core/logger after the history made
+		// through it   3: its child derived before that history   4: its child derived after it
+		phases = 5
+	}
+	var tgt, childBefore, childAfter c08Target
+	var baseChild *c08Observation
 	reps := op.Reps
 	if !seq {
 		if reps < 1 {
@@ -574,7 +678,32 @@ func c08RunCase(op *c08Op) (out c08Outcome) {
 		wg.Wait()
 	}()
 	for phase := 0; phase < phases; phase++ {
-		if phase == 1 {
+		if same {
+			switch phase {
+			case 1:
+				c := o.newTarget().child(op.Child)
+				o.onCore, o.onLg = c.core, c.lg
+			case 2:
+				tgt = o.newTarget()
+				childBefore = tgt.child(op.Child)
+				for i := range op.Hist {
+					w.runHist(&op.Hist[i])
+				}
+				for i := range op.Self {
+					o.selfOp(tgt, &op.Self[i])
+				}
+				childAfter = tgt.child(op.Child)
+				o.onCore, o.onLg = tgt.core, tgt.lg
+			case 3:
+				o.onCore, o.onLg = childBefore.core, childBefore.lg
+			case 4:
+				o.onCore, o.onLg = childAfter.core, childAfter.lg
+			}
+			// what the history wrote to the shared sinks is not part of the observation
+			o.sink.take()
+			o.errOut.take()
+			o.hookRec.take()
+		} else if phase == 1 {
 			if seq {
 				for i := range op.Hist {
 					w.runHist(&op.Hist[i])
@@ -609,6 +738,22 @@ func c08RunCase(op *c08Op) (out c08Outcome) {
 		res := o.run() // the one call site of every observation
 		if phase == 0 {
 			out.base = res
+			continue
+		}
+		if same {
+			want, ph := out.base, "same-logger"
+			switch phase {
+			case 1:
+				baseChild = res
+				continue
+			case 3:
+				want, ph = baseChild, "same-logger:child-before"
+			case 4:
+				want, ph = baseChild, "same-logger:child-after"
+			}
+			if !res.same(want) && out.bad == nil {
+				out.bad, out.phase, out.want = res, ph, want
+			}
 			continue
 		}
 		if !res.same(out.base) && out.bad == nil {
@@ -756,11 +901,15 @@ func c08Exec(raw json.RawMessage) Result {
 	}
 	o := ok()
 	if out.bad != nil {
-		if !bytes.Equal(out.bad.HookRec, out.base.HookRec) {
+		if out.want == nil && !bytes.Equal(out.bad.HookRec, out.base.HookRec) {
 			kind = "hook-entry" // the hook of the observed call read something else from its *CheckedEntry
 		}
+		ref := out.base
+		if out.want != nil {
+			ref = out.want
+		}
 		o = bad(fmt.Sprintf("C08:history-dependent:%s:%s", kind, out.phase),
-			"the observed call produced different results %s\n  with every pool empty: %s\n  %-22s %s\n%s", out.phase, out.base.text(), out.phase+":", out.bad.text(), out.detail)
+			"the observed call produced different results %s\n  fresh logger, every pool empty: %s\n  %-22s %s\n%s", out.phase, ref.text(), out.phase+":", out.bad.text(), out.detail)
 	} else if out.base.Foreign != 0 || out.base.FHooks != 0 {
 		o = bad("C08:history-dependent:"+kind+":foreign-sink", "the observed call reached a sink or hook of another logger: %s", out.base.text())
 	}
@@ -789,7 +938,7 @@ func c08Exec(raw json.RawMessage) Result {
 		impl["timeout"] = false // re-run alone after a watchdog timeout (conc_watchdog.go): finished in time
 	}
 	noModel := op.Obs.T != "enc" || out.base.Panic != ""
-	nf := len(op.Hist)
+	nf := len(op.Hist) + len(op.Self)
 	shape := fmt.Sprintf("%s/%s/hist%d", op.Mode, kind, bucket(nf))
 	if op.Obs.Prebuilt {
 		shape += "/prebuilt"
@@ -941,12 +1090,95 @@ func c08Targeted(r *Rand, emit func(op any)) {
 	}
 }
 
+// ---- histories through the observed core / logger itself ---------------------------------------------------------------
+
+func c08GenSelf(r *Rand, g *encGen, n int) []c08Self {
+	out := []c08Self{}
+	for i := 0; i < n; i++ {
+		s := c08Self{S: Pick(r, []string{"nofields", "nofields", "fields", "fields", "obs", "panicobj", "checkdrop", "sync", "child", "child", "gc"}),
+			Fields: []encField{}, Calls: []encCall{}}
+		switch s.S {
+		case "fields":
+			s.Fields = g.fields(4)
+		case "panicobj":
+			s.Calls = g.ocalls(2)
+		case "child":
+			s.Fields, s.Log = g.fields(3), r.Bool()
+		}
+		out = append(out, s)
+	}
+	return out
+}
+
+// c08OpenNs makes the observed core's / logger's context leave a namespace open (With(zap.Namespace(…), …)).
+func c08OpenNs(r *Rand, g *encGen, obs *c08Obs) {
+	ns := []encField{{F: "ns", Key: hx([]byte(Pick(r, []string{"req", "ns", ""}))), Calls: []encCall{}},
+		{F: "prim", Key: hx([]byte("id")), P: mkStr([]byte("42")), Calls: []encCall{}}}
+	if r.Chance(1, 3) {
+		ns = append(ns, encField{F: "ns", Key: hx([]byte("inner")), Calls: []encCall{}})
+	}
+	switch obs.T {
+	case "enc":
+		obs.Op.Ctx = append(obs.Op.Ctx, ns)
+	case "log":
+		obs.Lg.Fields = append(obs.Lg.Fields, ns...)
+	}
+}
+
+func c08SameCase(r *Rand, sub bool) c08Op {
+	g := &encGen{r: r, hostile: r.Chance(1, 4), faults: Pick(r, []int{0, 150}), depth: 2}
+	g.config(false)
+	obs := c08GenObs(r)
+	obs.Prebuilt = false
+	if r.Chance(2, 3) {
+		c08OpenNs(r, g, &obs)
+	}
+	hist := []c08Hist{}
+	if r.Chance(1, 3) {
+		hist = c08GenHist(r, 1+r.Intn(3))
+	}
+	return c08Op{K: "hist", Mode: "same", Sub: sub, Obs: obs, Hist: hist, Self: c08GenSelf(r, g, 1+r.Intn(8)), Child: g.fields(3)}
+}
+
+// the same-logger histories that matter most, one operation each: JSON and console, core level and logger level, a context
+// that leaves a namespace open, an observed entry WITH fields
+func c08SameTargeted(r *Rand, emit func(op any)) {
+	str := func(s string) string { return hx([]byte(s)) }
+	ctx := []encField{{F: "ns", Key: str("req"), Calls: []encCall{}}, {F: "prim", Key: str("id"), P: mkStr([]byte("42")), Calls: []encCall{}}}
+	status := encField{F: "prim", Key: str("status"), P: mkInt(200), Calls: []encCall{}}
+	selfs := [][]c08Self{
+		{{S: "nofields"}}, {{S: "fields", Fields: []encField{status}}}, {{S: "obs"}}, {{S: "checkdrop"}}, {{S: "sync"}}, {{S: "panicobj"}},
+		{{S: "child", Fields: []encField{status}, Log: true}}, {{S: "child", Fields: []encField{}, Log: true}}, {{S: "nofields"}, {S: "gc"}, {S: "nofields"}},
+	}
+	for _, console := range []bool{false, true} {
+		for si, self := range selfs {
+			for i := range self {
+				if self[i].Fields == nil {
+					self[i].Fields = []encField{}
+				}
+				self[i].Calls = []encCall{}
+			}
+			op := c08OneEncOp(r, console, 0, 0, 1, 0)
+			op.Ctx, op.Fields, op.Reentrant = [][]encField{ctx}, []encField{status}, false
+			op.Ent.Msg = str("zvOBS done")
+			emit(c08Op{K: "hist", Mode: "same", Sub: si == 0, Obs: c08Obs{T: "enc", Op: op}, Hist: []c08Hist{}, Self: self, Child: []encField{status}})
+			lg := &c08Logger{Console: console, Stack: 99, Fields: ctx}
+			emit(c08Op{K: "hist", Mode: "same", Sub: si == 0, Obs: c08Obs{T: "log", Lg: lg, Act: &c08Act{A: "log", Lvl: 0, Msg: str("zvOBS done"), Fields: []encField{status}, Depth: 1}},
+				Hist: []c08Hist{}, Self: self, Child: []encField{status}})
+		}
+	}
+}
+
 func c08Gen(r *Rand, tier string, emit func(op any)) {
-	nSeq, nConc, subEvery := 700, 60, 3
+	nSeq, nConc, nSame, subEvery := 600, 60, 200, 3
 	if tier == "thorough" {
-		nSeq, nConc, subEvery = 12000, 800, 4
+		nSeq, nConc, nSame, subEvery = 10000, 800, 3000, 4
 	}
 	c08Targeted(r, emit)
+	c08SameTargeted(r, emit)
+	for i := 0; i < nSame; i++ {
+		emit(c08SameCase(r, i%(2*subEvery) == 0))
+	}
 	for i := 0; i < nSeq; i++ {
 		emit(c08Op{K: "hist", Mode: "seq", Sub: i%subEvery == 0, Obs: c08GenObs(r), Hist: c08GenHist(r, 1+r.Intn(12))})
 	}
